@@ -315,6 +315,40 @@ def main(prop: str, tier: str, classes=None) -> int:
                 if float(ft["fitness"]) != float(sign * f(np.asarray([ft["phenotype"]]))[0]) or (cls not in (DifferentialEvolution, jDE, SHAGA) and float(ft["fitness"]) != best):
                     chk.fail("with n_jobs > 1 the reported best fitness is not the objective value of the reported phenotype",
                              dd, {"optimizer": cls.__name__, "clause": "best_parallel"})
+    if prop == "C17":
+        # caller-owned argument dictionaries (fitness_function_args, genotype_to_phenotype_args) with array values of unusual
+        # layout, with and without workers: after construction and after fit() they hold the very same objects, unchanged
+        import c16_workers as W
+        from thefittest.optimizers import GeneticAlgorithm, DifferentialEvolution, SHAGA
+        W.DELAYS = 0
+        for cls, kw in ((GeneticAlgorithm, dict(iters=3, pop_size=8, str_len=6)), (DifferentialEvolution, dict(iters=3, pop_size=8, left_border=-1.0, right_border=1.0, num_variables=6)),
+                        (SHAGA, dict(iters=3, pop_size=8, str_len=6))):
+            for nj in (1, 2):
+                big = np.arange(36, dtype=np.float64).reshape(6, 6)
+                fargs = {"weights": big[:, 2], "scale": np.array(2.0), "table": np.asfortranarray(big)}
+                gargs = {"shift": big.T[1]}
+                before = {k: (id(v), v.shape, v.strides, v.flags["C_CONTIGUOUS"], v.copy()) for d_ in (fargs, gargs) for k, v in d_.items()}
+                o = cls(fitness_function=W.weighted_sum, fitness_function_args=fargs, genotype_to_phenotype=W.g2p_shift, genotype_to_phenotype_args=gargs,
+                        n_jobs=nj, random_state=chk.seed + 3, **kw)
+                stages = [("constructor", {k: (id(v), v.shape, v.strides, v.flags["C_CONTIGUOUS"], v.copy()) for d_ in (fargs, gargs) for k, v in d_.items()})]
+                try:
+                    o.fit()
+                except Exception as e:  # noqa
+                    chk.fail("an optimizer run with argument dictionaries raises", {"optimizer": cls.__name__, "n_jobs": nj, "error": repr(e)[:200]},
+                             {"optimizer": cls.__name__, "clause": "args_raises"})
+                    continue
+                stages.append(("fit", {k: (id(v), v.shape, v.strides, v.flags["C_CONTIGUOUS"], v.copy()) for d_ in (fargs, gargs) for k, v in d_.items()}))
+                chk.count("caller_args")
+                chk.case(("caller_args", cls.__name__, nj))
+                for stage, now in stages:
+                    bad = [k for k in before if k not in now or now[k][:4] != before[k][:4] or not np.array_equal(now[k][4], before[k][4])]
+                    if bad or set(now) != set(before):
+                        k0 = (bad or sorted(set(now) ^ set(before)))[0]
+                        chk.fail("the optimizer modified the caller's fitness_function_args / genotype_to_phenotype_args",
+                                 {"optimizer": cls.__name__, "n_jobs": nj, "after": stage, "entry": k0,
+                                  "before": str(before.get(k0, ("-",) * 4)[1:4]), "now": str(now.get(k0, ("-",) * 4)[1:4])},
+                                 {"optimizer": cls.__name__, "clause": "caller_args"})
+                        break
     if prop == "C01":
         # an integer-valued objective beyond 2**53 (counts scaled by a large constant): the reported fitness is one of the values
         # the objective returned, exactly, and the reported phenotype attains it (compared as Python integers)
